@@ -1,9 +1,11 @@
 (* Extraction of the executable models (ExtrOcamlBasic only: bool, option,
    list, prod, unit, sumbool map to OCaml's; Z/N/positive stay inductive). *)
 From Coq Require Import Extraction ExtrOcamlBasic.
-From STS Require Import Model.Ranges.
+From STS Require Import Model.Ranges Model.Chunk.
 Extraction Language OCaml.
 Set Extraction Optimize.
 Extraction "model.ml"
   add_part add_part_replaced part_exists complete covered_b norm subset_b
-  same_set_b compatible_b discipline_b sorted_disjoint_b missing sort_ranges.
+  same_set_b compatible_b discipline_b sorted_disjoint_b missing sort_ranges
+  chunks_plain chunks_rec send_size fluff_of pack init_bstate payloads dropped
+  tiles_from_b tiles_ranges_b all_le_b bin_split new_bin is_full.
